@@ -313,6 +313,16 @@ NOT_APPLICABLE = {}
 
 for _pid, _lvl in (('C13', 'other'), ('C16', 'other'), ('C17', 'other')):
     PROPS.setdefault(_pid, dict(v=[], k_quick=[], k_thorough=[]))['level'] = _lvl
+# C16: new_boxed / clone_dyn are generic over the structure kind; what they produce for a kind is
+# determined by that kind's Header::{set_size,payload_len,total_size} and MaybeDynSized::{BASE_SIZE,dst_len}
+# implementations.  Those carry Verus contracts (proved for all sizes); new_boxed/clone_dyn themselves
+# stay bounded (Kani).
+PROPS['C16']['v'] = [('u_mb2_dstlen', ['*Tag::dst_len', '*_BASE_SIZE', 'DynSizedStructure::dst_len', 'MaybeDynSized::payload', 'MaybeDynSized::as_bytes',
+                                      'BootInformationHeader::set_size', 'BootInformationHeader::payload_len', 'BootInformationHeader::total_size',
+                                      'TagHeader::set_size', 'TagHeader::payload_len', 'Header::total_size']),
+                     ('u_hdr_builder', ['*HeaderTag::dst_len', 'INFOREQ_BASE_SIZE', 'DynSizedStructure::dst_len',
+                                        'HeaderTagHeader::set_size', 'HeaderTagHeader::payload_len',
+                                        'Multiboot2BasicHeader::set_size', 'Multiboot2BasicHeader::payload_len'])]
 PROPS['C17']['v'] = [('u_mb2_dstlen', ['CommandLineTag::dst_len', 'BootLoaderNameTag::dst_len', 'ModuleTag::dst_len', 'COMMANDLINETAG_BASE_SIZE', 'BOOTLOADERNAMETAG_BASE_SIZE', 'MODULETAG_BASE_SIZE'])]
 PROPS.setdefault('C11', dict(v=[], k_quick=[], k_thorough=[]))
 PROPS['C11']['v'] = [('u_hdr_core', ['Multiboot2Header::iter', 'Multiboot2Header::verify_checksum', 'Multiboot2Header::header_magic',
